@@ -29,7 +29,8 @@ RULE = (
 ASSUMPTIONS = [
     "pixel-only resizes need not be noticed (caching per terminal size is documented): either the fresh or the "
     "previously cached value is accepted there; while queries are disabled a value cached earlier may be served",
-    "AutoCellRatio.is_supported is decided by the library at its first use in the process (no public reset)",
+    "AutoCellRatio.is_supported is put back to None (undetermined) at the start of every history (the attribute is "
+    "documented as settable); a positive finding may be kept for good, a negative one must not survive enable_queries()",
     "yield injection: LINE events restricted to the code objects of cached_wrapper, terminal_size_cached_wrapper "
     "and get_cell_size; the callback yields or sleeps 50..500 us from a per-thread seeded generator",
 ]
@@ -50,6 +51,7 @@ class Model:
         self.xt_cell = None  # what the terminal would answer to XTWINOPS 16
         self.cache = None  # (cols, rows) -> value last served/cached with its provenance
         self.memo = {}  # memoized query helpers: None | "enabled" | "disabled"
+        self.support = None  # auto cell ratio support: None (undetermined) | True | False
         self.cached_while_disabled = False
 
     def fresh_cell(self):
@@ -120,6 +122,7 @@ def run_history(seed, env, res, probes, allow_subprocess=False):
     term_image.disable_queries()
     term_image.enable_queries()
     term_image.set_cell_ratio(0.5)
+    AutoCellRatio.is_supported = None  # documented as settable: undetermined
     probes.reset()
     sizes_seen = []
     steps = rnd.randint(5, 40)
@@ -168,6 +171,10 @@ def run_history(seed, env, res, probes, allow_subprocess=False):
                 m.queries = True
                 m.invalidate()
                 m.memo.clear()
+                if m.support is False:
+                    # "re-enabling queries discards results obtained while they were
+                    # disabled": a negative support finding must be re-determined
+                    m.support = None
         elif op == "q_off":
             term_image.disable_queries()
             m.queries = False
@@ -185,16 +192,25 @@ def run_history(seed, env, res, probes, allow_subprocess=False):
                 term_image.set_cell_ratio(v)
                 m.ratio_mode = ("float", v)
             else:
-                first_use = AutoCellRatio.is_supported is None
+                first_use = m.support is None
                 acc0 = m.acceptable_cell()
                 try:
                     term_image.set_cell_ratio(getattr(AutoCellRatio, kind))
                 except TermImageError:
                     if first_use:
-                        m.note_read(acc0)
-                    if AutoCellRatio.is_supported:
-                        fail("auto-ratio-refused", "set_cell_ratio(%s) refused although supported" % kind)
+                        # the support check read the cell size and got nothing
+                        if None not in acc0:
+                            fail("auto-ratio-refused", "set_cell_ratio(%s) refused although a fresh cell-size computation gives %s (terminal %s, queries %s, xtwinops %s)" % (kind, sorted(map(str, acc0)), m.term, m.queries, m.xt_cell))
+                            return
+                        m.support = False
+                        m.note_read(None)
+                    elif m.support:
+                        fail("auto-ratio-refused", "set_cell_ratio(%s) refused although auto cell ratio was found supported earlier" % kind)
+                        return
+                    # else: found unsupported earlier and nothing has discarded that since
                     continue
+                if first_use:
+                    m.support = True
                 # set_cell_ratio(auto) reads the cell size itself
                 acc = m.acceptable_cell()
                 if kind == "FIXED":
@@ -210,7 +226,7 @@ def run_history(seed, env, res, probes, allow_subprocess=False):
                     m.ratio_mode = ("dynamic", None)
                     if first_use:
                         # the support check read (and cached) the cell size
-                        m.note_read(acc0)
+                        m.note_read(acc0 - {None} or acc0)
         elif op == "read":
             acc = m.acceptable_cell()
             cs = utils.get_cell_size()
